@@ -676,3 +676,42 @@ Proof.
   exact (point_composition_written_linked T surf P tr_empty teqb tr_surf inv sense Hs Hk mat_of dens_of).
 Qed.
 Print Assumptions C09_point_composition_written_linked.
+
+(* C09's material-only model of the "treat FILL" loop and C05's full model (with
+   geometry, transformations and caches) AGREE on the material / provenance
+   projection: on the same table (C05's, read through bridge), whenever both
+   return, they return the same number of cells in the same order, with the same
+   provenance head — the leaf of the descent — and, cell by cell, the same
+   material, density and no fill.  (Keys differ: C05 also numbers the
+   transformed copies.)  So C09_provenance_head_is_leaf & co., proved on C09's
+   model, speak about the cells C05's theorems locate points in. *)
+From T4V Require Import C09.LinkC05Models.
+
+Theorem C09_fill_models_agree_linked :
+  forall (T : Type) (mat_of : Z -> string) (dens_of : Z -> option string) (surf P : Type)
+         (tr_empty : T -> bool) (teqb : T -> T -> bool) (tr_surf : T -> surf -> surf)
+         (inv : T -> P -> P) (sense : surf -> P -> bool),
+  (forall t o p, sense (tr_surf t o) p = sense o (inv t p)) ->
+  (forall a b, teqb a b = true -> tr_empty a = tr_empty b /\ forall p, inv a p = inv b p) ->
+  forall fuel cf ifd ifg (s s' : M5.state T surf) rs fuel9 next st' ks,
+  P5.fresh_ok T surf s -> M5.s_cache s = [] ->
+  (forall c cl, M5.dget c (M5.s_cells s) = Some cl -> M5.c_orig cl = []) ->
+  M5.fill_phase T surf tr_empty teqb tr_surf fuel cf ifd ifg s = M5.Ok (rs, s') ->
+  (forall k, lookup k (bridge_cells T mat_of dens_of (M5.s_cells s)) <> None -> (k <= next)%Z) ->
+  treat_fill fuel9 (bridge_cells T mat_of dens_of (M5.s_cells s)) next = Ok (st', ks) ->
+  map (head_of (fst st')) ks = map (head5 T surf s') (List.concat rs) /\
+  Forall2 (fun k k5 => exists c ncl, lookup k (fst st') = Some c /\
+                                     M5.dget k5 (M5.s_cells s') = Some ncl /\
+                                     same_cell T mat_of dens_of c ncl)
+          ks (List.concat rs).
+Proof.
+  intros T mat_of dens_of surf P tr_empty teqb tr_surf inv sense H1 H2.
+  exact (fill_models_agree T mat_of dens_of surf P tr_empty teqb tr_surf inv sense H1 H2).
+Qed.
+Print Assumptions C09_fill_models_agree_linked.
+
+Example C09_same_cell_unfold : forall T mat_of dens_of (c : cell) (ncl : M5.cell T),
+  same_cell T mat_of dens_of c ncl <->
+  c_mat c = mat_of (M5.c_mat ncl) /\ c_dens c = dens_of (M5.c_rho ncl) /\
+  c_fill c = None /\ M5.c_fill ncl = None.
+Proof. intros. reflexivity. Qed.
